@@ -11,6 +11,8 @@ from .fsprops import *
 H = 'props.fsprops'
 
 
+MIR_KINDS = ('lib', 'bin')
+
 def jobs(tier):
     js = []
     quick = tier == 'quick'
@@ -30,6 +32,10 @@ def jobs(tier):
         for kind in ('include', 'after'):
             js.append({'name': 'verify discovers dependency shape=%d %s' % (shape, kind), 'harness': (H, 'h_deps'),
                        'params': {'mode': 'Verify', 'shape': shape, 'kind': kind}})
+    # the mode / options the binary hands to the library for every flag combination (real main() from the bin crate's MIR)
+    for sub in ('Verify',):
+        js.append({'name': 'cli: options passed to the run for sub-command %s x all flags' % sub, 'harness': ('props.c17', 'h_cli'),
+                   'mir': ('lib', 'bin'), 'params': {'sub': sub, 'txtpp_file': None}})
     from . import project
     js += project.jobs('C06', tier)
     return js
